@@ -74,6 +74,8 @@ EDITS = {
     'add-entity-middle': lambda m: m[0][1].insert(1, ('C', False, [F('h1')])),
     'remove-entity': lambda m: m[0][1].pop(),
     'add-namespace': lambda m: m.append(('ns2', [('D', False, [F('k1')])])),
+    'valid-ns-invalid-other-ns': lambda m: (m[0][1].append(('Z', False, [F('z1')])), ent(m, 'zz', 'C')[2].pop(), ent(m, 'zz', 'C')[2].append(F('h9'))),
+    'new-ns-and-invalid-ns': lambda m: (m.append(('ns2', [('D', False, [F('k1')])])), ent(m, 'zz', 'C')[2].pop(), ent(m, 'zz', 'C')[2].append(F('h9'))),
     'remove-namespace': lambda m: m.pop(),
 }
 THOROUGH_EDITS = {
@@ -96,10 +98,12 @@ SYM_EDITS = {'same': 'A', 'remove-field': 'A', 'retype': 'A', 'flip-then-remove'
 def shapes(tier):
     out = []
     for name in EDITS:
+        if name in ('valid-ns-invalid-other-ns', 'new-ns-and-invalid-ns'):
+            continue      # need the two-namespace base
         out.append(dict(base='BASE', edit=name))
         if name in SYM_EDITS:
             out.append(dict(base='BASE', edit=name, sym=SYM_SETS[SYM_EDITS[name]]))
-    for name in ('same', 'add2', 'remove-namespace', 'add-namespace', 'flip-then-remove'):
+    for name in ('same', 'add2', 'remove-namespace', 'add-namespace', 'flip-then-remove', 'valid-ns-invalid-other-ns', 'new-ns-and-invalid-ns', 'add-entity'):
         out.append(dict(base='BASE2', edit=name))
     if tier == 'thorough':
         for name in THOROUGH_EDITS:
